@@ -125,6 +125,7 @@ type c14World struct {
 	fedTotal atomic.Int64
 	stopFeed atomic.Bool
 	links    []router.Link
+	tParked  time.Time
 }
 
 func ltName(t topology.LinkType) string { return t.String() }
@@ -269,7 +270,7 @@ func buildC14World(cfg childCfg) (*c14World, error) {
 	}
 	classes := []byte{clForward, clForward, clForward, clForward, clDeliver, clDeliver, clBadMAC, clBadMAC, clExpired, clTrace}
 	nScn := 0
-	for i := 0; i < 600; i++ {
+	for i := 0; i < 320; i++ {
 		cl := classes[rng.IntN(len(classes))]
 		sp := genScenarioPkt(s, rng, cl, allShapes)
 		if sp == nil {
@@ -463,6 +464,9 @@ func (w *c14World) stableCut(want roleCount, needParked bool, watchdog time.Dura
 			}
 		}
 		if allParked {
+			if w.tParked.IsZero() {
+				w.tParked = time.Now()
+			}
 			s1 := w.led.summarize()
 			snap = snapshotGoroutines()
 			if snap.Idle == want && snap.Busy == (roleCount{}) {
@@ -527,7 +531,7 @@ func c14Child(cfg childCfg) {
 		_ = w.star.C.DataPlane.Run(ctx)
 	}()
 	d := w.desc
-	emit(&phaseReport{Phase: "start", Desc: &d})
+	emit(&phaseReport{Phase: "start", Desc: &d, WallMs: time.Since(t0).Milliseconds()})
 
 	if cfg.Mode == "load" {
 		c14ShutdownUnderLoad(w, t0)
@@ -549,6 +553,7 @@ func c14Child(cfg childCfg) {
 		os.Exit(0)
 	}
 	c14LedgerCheck(w, rep, sum, fill, false)
+	rep.Note += fmt.Sprintf(" fed_done_ms=%d", w.tParked.Sub(t0).Milliseconds())
 	rep.RaceLogSize = raceLogSize(cfg.RaceLog)
 	rep.WallMs = time.Since(t0).Milliseconds()
 	emit(rep)
